@@ -5,7 +5,7 @@
    position it reaches is a table slot, whose pointer the invariant resolves; the regions it
    collects are table regions, pairwise equal or disjoint. *)
 From CV Require Import Core.Builder Core.ReaderFacts Core.BuilderFacts Core.AllocProofs
-  Core.WritePtrProofs Core.HeapProofs Core.BuildOps Core.BuildValid Core.BuildInv Core.HeapInv Core.HeapOps.
+  Core.WritePtrProofs Core.HeapProofs Core.BuildOps Core.BuildValid Core.BuildInv Core.HeapInv Core.HeapOps Core.HeapCopy Core.HeapSteps.
 From Coq Require Import ZifyBool ZifyNat FinFun.
 Open Scope Z_scope.
 
